@@ -649,7 +649,9 @@ def allFails (r : CRecord) (chunks : List (List Byte × List Byte)) (id : Option
     let mine := dropOwn r.own chunks.length mine
     let mine := if r.c == .caf && ids.contains [102, 114, 101, 101] && mine.length == chunks.length + 1 &&
                    (mine.getLast?.map (·.id)) == some [102, 114, 101, 101] then mine.take chunks.length else mine
-    if mine.length != chunks.length then [{ tag := "count" }] else entriesFail mine chunks
+    -- the container's audio chunk is a chunk of the file like any other: a full iteration visits it exactly once
+    (if (ents.filter (·.id == ownLast r.c)).length != 1 && !ids.contains (ownLast r.c) then [{ tag := "all-last" }] else []) ++
+    (if mine.length != chunks.length then [{ tag := "count" }] else entriesFail mine chunks)
   | some q =>
     let q := storedId q
     let expect := chunks.filter (·.1 == q)
@@ -712,33 +714,46 @@ def stepFails (all : List Query) : Cursor → List Query → List Fail
 
 def audioOf (frames : Nat) : List Nat := (List.range frames).map fun k => (k * 257 + 1) % 65536
 
+def writeFails (m : CRun) : List Fail :=
+  match m.wret with
+  | some (ret, err) => if ret == (m.frames : Int) && err == 0 then [] else [{ tag := "write" }]
+  | none => []
+
+def closeFails (m : CRun) : List Fail :=
+  match m.close with
+  | some c => if c == 0 then [] else [{ tag := "close" }]
+  | none => []
+
+/-- C13: "without disturbing audio": the items read back are the items written, the rest of the buffer untouched -/
+def readFails (m : CRun) : List Fail :=
+  match m.read with
+  | some rb =>
+    if rb.ret == (m.frames : Int) && rb.err == 0 && rb.data == m.items ++ List.replicate (m.readN - m.frames) 0xA5A5 then []
+    else [{ tag := "audio" }]
+  | none => []
+
+def queryFails (r : CRecord) (chunks : List (List Byte × List Byte)) : Query → List Fail
+  | .all id _ ents endN => allFails r chunks id ents endN
+  | .getstr ty s =>
+    (match r.strings.find? (·.1 == ty) with
+     | some w => if s == some w.2 then [] else [{ tag := "strings" }]
+     | none => [])
+  | _ => []
+
+/-- the clauses on the re-opened file -/
+def reopenedFails (r : CRecord) (m : CRun) (ri : ReInfo) : List Fail :=
+  (if m.wret.isSome && ri.frames != (m.frames : Int) then [{ tag := "frames" }] else []) ++
+  readFails m ++ m.queries.flatMap (queryFails r (stored m.sets)) ++ stepFails m.queries {} m.queries
+
+def reopenFails (r : CRecord) (m : CRun) : List Fail :=
+  match m.reopen with
+  | none => []
+  | some ri => if !ri.ok then [{ tag := "reopen" }] else reopenedFails r m ri
+
 /-- THE PREDICATE of C13 on one run -/
 def judgeRun (r : CRecord) (m : CRun) : List Fail :=
-  if !m.complete then [{ tag := "crash" }] else
-  let chunks := stored m.sets
-  setFails r.c m.sets ++
-  (match m.wret with
-   | some (ret, err) => if ret == (m.frames : Int) && err == 0 then [] else [{ tag := "write" }]
-   | none => []) ++
-  (match m.close with | some c => if c == 0 then [] else [{ tag := "close" }] | none => []) ++
-  (match m.reopen with
-   | none => []
-   | some ri =>
-     if !ri.ok then [{ tag := "reopen" }] else
-     (if m.wret.isSome && ri.frames != (m.frames : Int) then [{ tag := "frames" }] else []) ++
-     -- C13: "without disturbing audio": the items read back are the items written, the rest of the buffer untouched
-     (match m.read with
-      | some rb =>
-        if rb.ret == (m.frames : Int) && rb.err == 0 && rb.data == m.items ++ List.replicate (m.readN - m.frames) 0xA5A5 then []
-        else [{ tag := "audio" }]
-      | none => []) ++
-     (m.queries.flatMap fun q => match q with
-        | .all id _ ents endN => allFails r chunks id ents endN
-        | .getstr ty s => (match r.strings.find? (·.1 == ty) with
-                           | some w => if s == some w.2 then [] else [{ tag := "strings" }]
-                           | none => [])
-        | _ => []) ++
-     stepFails m.queries {} m.queries)
+  if !m.complete then [{ tag := "crash" }]
+  else setFails r.c m.sets ++ writeFails m ++ closeFails m ++ reopenFails r m
 
 /-- C13 "audio untouched … without disturbing audio or other metadata": the twin without any chunk reads the same audio -/
 def twinFails (m t : CRun) : List Fail :=
